@@ -412,6 +412,7 @@ func buildIntrinsics() map[string]intrinsic {
 		// network stub: binding the port succeeds (native replay binds a real UDP port)
 		return Tuple{ex.st.Const(64, 30000), Iface{}}
 	}
+	m["os.Getwd"] = func(ex *Exec, fn *ssa.Function, a []Value) Value { return Tuple{ex.mkStr("/"), Iface{}} }
 	m["encoding/hex.Dump"] = func(ex *Exec, fn *ssa.Function, a []Value) Value { return ex.mkStr("<hexdump>") }
 	m["os.Exit"] = func(ex *Exec, fn *ssa.Function, a []Value) Value {
 		ex.require(ex.st.F, "os.Exit called")
